@@ -457,7 +457,8 @@ def r3_en_passant(ctx):
         frm = ('fld', ('der', ('p', 1)), 'from_square')
         to = ('fld', ('der', ('p', 1)), 'to_square')
         ctx.ob(rule, name, '%s: pawn moves from origin to destination' % col,
-               removes[0][0][1] == frm and puts[0][1] == to and puts[0][2] == mover_piece and puts[0][3] == mover_col,
+               removes[0][0][1] == frm and puts[0][1] == to and puts[0][3] == mover_col and
+               (puts[0][2] == mover_piece or (puts[0][2] == piece('Pawn') and conds.get(('discr', mover_piece)) == pawn)),     # the piece removed, or the constant it was matched against
                found=[show(removes[0][0][1])] + [show(x) for x in puts[0][1:]], expected='remove(from); put(to, mover)')
         ep = [a for m, a, u in calls if m == 'push_en_passant_target']
         ctx.ob(rule, name, '%s: ep target cleared' % col, len(ep) == 1 and bb_of(ep[0][1]) == 0,
